@@ -258,6 +258,7 @@ func (g *ValGen) fill(v reflect.Value, depth int) {
 		m := reflect.MakeMap(t)
 		if depth > 0 && !g.r.Chance(15) {
 			n := 1 + g.r.Intn(3)
+			var seenKeys map[string]bool
 			for i := 0; i < n; i++ {
 				k := reflect.New(t.Key()).Elem()
 				if i > 0 || !g.r.Chance(30) { // a zero key fairly often
@@ -265,6 +266,18 @@ func (g *ValGen) fill(v reflect.Value, depth int) {
 				}
 				if hasNaN(k) {
 					continue
+				}
+				if t.Key().Kind() == reflect.Ptr {
+					// pointer keys are distinct by address; keep their pointees distinct too, so that
+					// entries can be told apart when results are compared
+					repr := coqVal(k)
+					if seenKeys == nil {
+						seenKeys = map[string]bool{}
+					}
+					if seenKeys[repr] {
+						continue
+					}
+					seenKeys[repr] = true
 				}
 				e := reflect.New(t.Elem()).Elem()
 				if !g.r.Chance(20) { // a zero value fairly often
